@@ -189,6 +189,10 @@ func (b *batch) confirmAbort(sc *scratch, index int, reason, stderr string) {
 			if stalled {
 				cl, det = "hang@uninstrumented", "no result within the wall-clock backstop, twice"
 			}
+			if cl == "harness-bug" {
+				b.fail(fmt.Errorf("run %d: the harness itself panicked: %s", index, det))
+				return
+			}
 			b.mu.Lock()
 			b.results[index] = &indexed{index: index, died: cl, result: &Result{Status: "violation", Class: cl,
 				Detail: "worker process " + reason + " and did so again when the run was repeated alone: " + det}}
@@ -253,6 +257,11 @@ func cmdCheck(prop, tier string) int {
 		fmt.Println("note: synchronisation construct in non-test code:", u)
 	}
 
+	if prop == "C03" && os.Getenv("VERIF_WORKER_GOMAXPROCS") == "" {
+		// one P: whatever per-P state the runtime keeps (sync.Pool) is then a function of the
+		// simulated schedule alone
+		os.Setenv("VERIF_WORKER_GOMAXPROCS", "1")
+	}
 	b := &batch{prop: prop, tier: tier, base: base, known: known, results: map[int]*indexed{}}
 	total := pi.quickRuns
 	if n := envInt("VERIF_RUNS", 0); n > 0 {
@@ -470,6 +479,13 @@ func knownLine(prop string, k *Known) string {
 	return fmt.Sprintf("KNOWN-FINDING: property=%s [%s] %s", prop, strings.TrimSpace(id), k.What)
 }
 
+func head(xs []string, n int) []string {
+	if len(xs) > n {
+		return xs[:n]
+	}
+	return xs
+}
+
 func appendUnique(xs []string, s string) []string {
 	for _, x := range xs {
 		if x == s {
@@ -511,8 +527,37 @@ func reportViolation(sc *scratch, b *batch, v *indexed) (string, *Result, error)
 		return "", nil, err
 	}
 	if rr.Status != "violation" || rr.Class != class {
-		return "", nil, fmt.Errorf("minimised case of run %d (class %s) did not reproduce when replayed (got %s %s): a source of nondeterminism escaped the simulator",
-			v.index, class, rr.Status, rr.Class)
+		// When the code under test uses real synchronisation primitives (sync.Pool, mutexes,
+		// goroutines: listed by the instrumenter) part of its behaviour is decided by the Go
+		// runtime, not by the simulator. A violation is still a violation: retry the replay a few
+		// times and report the class that the replay file produces; only a case that never
+		// fails again is an infrastructure error.
+		var got *Result
+		if rr.Status == "violation" {
+			got = rr
+		}
+		for attempt := 0; attempt < 6 && (got == nil || got.Class != class); attempt++ {
+			r2, err := execFresh(sc, final, b.known, b.tier, false)
+			if err != nil {
+				return "", nil, err
+			}
+			if r2.Status == "violation" && (got == nil || r2.Class == class) {
+				got = r2
+			}
+		}
+		if got == nil {
+			return "", nil, fmt.Errorf("minimised case of run %d (class %s) did not reproduce in 7 replays (last: %s %s): a source of nondeterminism escaped the simulator",
+				v.index, class, rr.Status, rr.Class)
+		}
+		if got.Class != class {
+			note := "the verdict class differs between executions of the same case (" + class + " when found, " + got.Class + " when replayed)"
+			if len(sc.sites.Unsupported) > 0 {
+				note += "; the code under test uses synchronisation primitives whose behaviour the simulator does not decide: " + strings.Join(head(sc.sites.Unsupported, 3), "; ")
+			}
+			got.Detail += "\n  note: " + note
+			class = got.Class
+		}
+		rr = got
 	}
 	dir := replayDir()
 	os.MkdirAll(dir, 0o755)
